@@ -1,5 +1,6 @@
 """C13 - connection-scoped state stays with its connection."""
 import json
+import cmdlib
 import connlib
 import vlib
 
@@ -23,6 +24,26 @@ def run(ctx):
         nmodel, nsim = len(model_sc), len(sim.scenarios)
         if nsim == 0:
             raise vlib.Inconclusive("TLC simulation exported no concurrent scenario")
+    if not ctx.replay:
+        # an application's own AUTH handler (SetAuthCommandHandler) that refuses without a Go error (an error reply, a status,
+        # nothing at all): the connection's authorization does not change through a command that did not succeed, and the
+        # closing of one connection (however it ends) leaves nothing behind for the next
+        tok = cmdlib.tok
+        R = lambda name, *a: {"cls": "c13", "name": name, "args": list(a)}
+        for pw in ("k:crstr", "k:nil", "k:status", "k:err", "k:null", "k1"):
+            scenarios.append({"requirepass": "pw:exact", "handler": "rec", "authdouble": True, "tracer": False, "nconns": 2, "steps": [
+                {"c": 0, "op": "send", "reqs": [R("GET", tok("key", "k1"))]},
+                {"c": 0, "op": "send", "reqs": [R("AUTH", tok("key", pw))]},
+                {"c": 0, "op": "send", "reqs": [R("GET", tok("key", "k1")), R("SET", tok("key", "k:ud=a"), tok("str", "v1"))]},
+                {"c": 1, "op": "send", "reqs": [R("GET", tok("key", "k2"))]}]})
+        for how in ("fullclose", "halfclose"):
+            for closefail in (False, True):
+                scenarios.append({"requirepass": "", "handler": "rec", "tracer": False, "nconns": 3, "closefail": closefail, "steps": [
+                    {"c": 0, "op": "send", "reqs": [R("SELECT", tok("int", n=2)), R("SET", tok("key", "k:ud=a"), tok("str", "v1")), R("GET", tok("key", "k1"))]},
+                    {"c": 0, "op": how},
+                    {"c": 1, "op": "send", "reqs": [R("GET", tok("key", "k1"))]},
+                    {"c": 1, "op": how},
+                    {"c": 2, "op": "send", "reqs": [R("GET", tok("key", "k2")), R("SET", tok("key", "k:ud=b"), tok("str", "v1")), R("GET", tok("key", "k1"))]}]})
     ctx.stage("generate")
     accepted, scs, lines = connlib.run_scenarios(ctx, scenarios, "c13")
     groups = connlib.report(ctx, accepted, scs, lines, None)
